@@ -616,7 +616,13 @@ def loop_exits_only_on_exhaustion(f, h):
             if t['k'] != 'switch':
                 return False
             cond = f.expr_operand(t['d'], u, 'T')
-            if not any(is_next(x) for x in walk(cond)):
+            # the test must be on the next() result itself (its discriminant / is_some / is_none), not on a value derived from an item
+            c = peel(cond)
+            while c[0] in ('discr', 'un') or (c[0] == 'call' and c[1].split('::')[-1] in ('is_some', 'is_none') and len(c[2]) == 1):
+                c = peel(c[1] if c[0] == 'discr' else (c[2] if c[0] == 'un' else c[2][0]))
+            while c[0] == 'call' and c[1].endswith(('std::ops::Try>::branch',)) and c[2]:
+                c = peel(c[2][0])
+            if not is_next(c):
                 return False
             n += 1
     return n >= 1
